@@ -458,6 +458,18 @@ func raceTopFrames(blk string) []string {
 			if strings.HasPrefix(f, "runtime.") || strings.HasPrefix(f, "internal/") || strings.HasPrefix(f, "reflect.") || strings.HasPrefix(f, "sync/atomic.") {
 				continue
 			}
+			// a library closure inlined into its caller carries the caller's function name
+			// (harness.X.ExclusiveValue.func3): the file the code is in tells whose code it is
+			if j+1 < len(lines) {
+				if file := strings.TrimSpace(lines[j+1]); strings.HasPrefix(file, "/") {
+					switch {
+					case strings.Contains(file, "/bbsimrun/bigbuff/") || strings.Contains(file, "/bigbuff/") && !strings.Contains(file, "/harness/"):
+						f = "bbsimrun/bigbuff." + f
+					case strings.Contains(file, "/simctx/"):
+						f = "bbsimrun/simctx." + f
+					}
+				}
+			}
 			tops = append(tops, f)
 			break
 		}
